@@ -75,6 +75,38 @@ func init() {
 			}
 			r.out = keep
 		}})
+	register(&Rule{ID: "RACE.GLOBALS", Engine: "E-LOCK+E-RACE", Min: 0,
+		Desc: "library packages used on their own from several goroutines (each exported function of the package may run concurrently with every other, no caller's lock assumed): package-level variables, and objects reachable only through them, are not written or used statefully without a lock of the package itself",
+		Run: func(c *Ctx, r *RuleRun) {
+			n := 0
+			for _, rel := range []string{"table", "utils", "types", "pkg/filter", "pkg/kway", "pkg/bufferpool", "pkg/skiplist", "wal"} {
+				if c.P.SSAPkg[c.P.pkgPath(rel)] == nil {
+					continue
+				}
+				key := "locks:" + rel
+				var la *LockAnalysis
+				if v, ok := c.memo[key]; ok {
+					la = v.(*LockAnalysis)
+				} else {
+					la = newLockAnalysisFor(c.P, rel)
+					c.memo[key] = la
+				}
+				sub := &RuleRun{c: r.c, rule: r.rule}
+				runRaceWith(c, sub, la, c.racesFor(la, "races:"+rel))
+				for _, in := range sub.out {
+					// package-level state only: struct fields of objects are the caller's business in this model
+					if in.Func != "" {
+						continue
+					}
+					n++
+					in.Construct = rel + ": " + in.Construct
+					r.out = append(r.out, in)
+				}
+			}
+			if n == 0 {
+				r.Hold("library packages", "no mutable package-level state", "", "no package-level variable of table, utils, types, filter, kway, bufferpool, skiplist, wal is written after initialisation or used statefully")
+			}
+		}})
 	scoped("RACE.FILTER", "RACE.FIELDS restricted to the bloom filter: its hash functions are stateful, lookups and builds of a shared filter are serialised exclusively", 1, "Filter")
 	register(&Rule{ID: "DUR.REMOVE.TABLE", Engine: "E-PATH", Min: 4,
 		Desc: "DUR.REMOVE restricted to table files: compaction inputs are deleted only after the output table was fsynced and renamed into place",
@@ -321,6 +353,25 @@ func runWmHeap(c *Ctx, r *RuleRun) {
 		}
 	})
 	nPop, nPush := 0, 0
+	isPush := func(ins ssa.Instruction) bool { return isHeapCall(ins, "Push") != nil }
+	var heapT *types.Named
+	for _, g := range p.Funcs {
+		if g.Pkg != f.Pkg {
+			continue
+		}
+		eachInstr(g, func(ins ssa.Instruction) {
+			for _, nm := range []string{"Push", "Pop"} {
+				if hc := isHeapCall(ins, nm); hc != nil {
+					v := stripValue(hc.Call.Args[0])
+					if pt, ok := v.Type().Underlying().(*types.Pointer); ok {
+						if n := p.isModuleNamed(pt.Elem()); n != nil {
+							heapT = n
+						}
+					}
+				}
+			}
+		})
+	}
 	eachInstr(f, func(ins ssa.Instruction) {
 		if pop := isHeapCall(ins, "Pop"); pop != nil {
 			nPop++
@@ -334,12 +385,47 @@ func runWmHeap(c *Ctx, r *RuleRun) {
 			r.Check(q.FindPath() == nil, fn, "pop deletes the pending entry", p.Pos(instrPos(pop)), "delete(pending, ts) follows heap.Pop on every path",
 				"an index is popped from the heap but its pending entry stays: a later Begin of the same index (read timestamps repeat) finds the stale entry, is not pushed again and is never tracked - the watermark passes an open transaction")
 		}
-		if push := isHeapCall(ins, "Push"); push != nil {
+		push := isHeapCall(ins, "Push")
+		if push == nil {
+			// a helper of the package that pushes
+			if cl, ok := ins.(*ssa.Call); ok {
+				if g := cl.Call.StaticCallee(); g != nil && p.InModule(g) && g.Pkg == f.Pkg && p.FuncMayDo(g, isPush) {
+					push = cl
+					md := NewMustDo(p, isPush)
+					r.Check(md.Func(g), p.FnName(g), "enters the heap through heap.Push", p.Pos(g.Pos()), "every path pushes with container/heap",
+						"on some path the index is added to the heap's slice without heap.Push: the heap order is broken, the minimum is no longer at the root and the watermark stalls or passes an unfinished index")
+				}
+			}
+		}
+		if push != nil {
 			nPush++
 			ok := boolFactIs(push, isLookupOK, false)
 			r.Check(ok, fn, "push iff no pending entry", p.Pos(instrPos(push)), "pushed only when the index has no pending entry", "an index is pushed although it already has a pending entry (or regardless of it): the heap holds duplicates or misses indices")
 		}
 	})
+	// the heap's slice changes only inside its heap.Interface methods
+	if heapT != nil {
+		for _, g := range p.Funcs {
+			if g.Pkg != f.Pkg {
+				continue
+			}
+			isMethod := g.Signature.Recv() != nil && p.isModuleNamed(g.Signature.Recv().Type()) == heapT
+			if isMethod && (g.Name() == "Push" || g.Name() == "Pop" || g.Name() == "Swap") {
+				continue
+			}
+			eachInstr(g, func(ins ssa.Instruction) {
+				cl, ok := ins.(*ssa.Call)
+				if !ok {
+					return
+				}
+				bi, ok := cl.Call.Value.(*ssa.Builtin)
+				if !ok || bi.Name() != "append" || p.isModuleNamed(cl.Type()) != heapT {
+					return
+				}
+				r.Viol(p.FnName(g), "heap slice changed only by container/heap", p.Pos(instrPos(cl)), "an element is appended to the heap's slice outside heap.Push: no sift-up, the heap order is broken")
+			})
+		}
+	}
 	if nPop == 0 || nPush == 0 {
 		r.Undecided(fn, "heap use", p.Pos(f.Pos()), fmt.Sprintf("%d heap.Pop and %d heap.Push calls found", nPop, nPush))
 	}
@@ -447,6 +533,11 @@ func runCodecBytes(c *Ctx, r *RuleRun) {
 					bad = "ranges over a string (steps by rune)"
 					pos = instrPos(x)
 				}
+			case *ssa.Call:
+				if obj := p.CalleeObj(x); obj != nil && obj.Pkg() != nil && (obj.Pkg().Path() == "unicode/utf8" || obj.Pkg().Path() == "unicode") {
+					bad = "decodes runes (" + obj.Pkg().Name() + "." + obj.Name() + ")"
+					pos = instrPos(x)
+				}
 			case *ssa.Convert:
 				if sl, ok := x.Type().Underlying().(*types.Slice); ok {
 					if bt, ok := sl.Elem().Underlying().(*types.Basic); ok && bt.Kind() == types.Rune {
@@ -461,6 +552,31 @@ func runCodecBytes(c *Ctx, r *RuleRun) {
 		r.Check(bad == "", p.FnName(f), "bytewise", p.Pos(pos), "keys are handled byte by byte",
 			p.FnName(f)+" "+bad+": the shared prefix of two keys that differ inside a multi-byte UTF-8 sequence is over-estimated and the decoder rebuilds a different key")
 	}
+	// the length LCP returns grows by exactly one per compared position
+	eachInstr(lcp, func(ins ssa.Instruction) {
+		ret, ok := ins.(*ssa.Return)
+		if !ok || len(ret.Results) != 1 {
+			return
+		}
+		ph, ok := retOperand(ret, 0).(*ssa.Phi)
+		if !ok {
+			return
+		}
+		unit := true
+		for _, e := range ph.Edges {
+			if bo, ok := e.(*ssa.BinOp); ok && bo.Op == token.ADD && (bo.X == ssa.Value(ph) || bo.Y == ssa.Value(ph)) {
+				other := bo.Y
+				if bo.Y == ssa.Value(ph) {
+					other = bo.X
+				}
+				if k, isK := constInt(other); !isK || k != 1 {
+					unit = false
+				}
+			}
+		}
+		r.Check(unit, p.FnName(lcp), "prefix length advances one byte at a time", p.Pos(instrPos(ret)), "the returned length is incremented by 1 per matching byte",
+			"the prefix length is advanced by a variable amount per step (a character width): bytes that were never compared are counted as common")
+	})
 }
 
 func runBloomAll(c *Ctx, r *RuleRun) {
